@@ -132,4 +132,190 @@ theorem run_all_unauthenticated (ops : List Op) (s : St) (h : ∀ op ∈ ops, op
     · exact h1.2 o ho
     · exact h2.2 o ho
 
+/-! ### connected is stable -/
+theorem completion_active (s : St) (r : Nat) (h : s.active.isSome = true) : (completion s r).1.active.isSome = true := by
+  unfold completion
+  repeat' split
+  all_goals simp_all
+
+theorem performCheck_active (s : St) (r : Nat) (b : Bool) : (performCheck s r b).1.active = s.active := rfl
+
+theorem checkCandidates_active (s : St) : (checkCandidates s).1.active = s.active := by
+  unfold checkCandidates
+  repeat' split
+  all_goals simp_all [performCheck]
+
+
+theorem handleRequest_active (s : St) (src : Nat) (m : Stun) (h : s.active.isSome = true) :
+    (handleRequest s src m).1.active.isSome = true := by
+  unfold handleRequest
+  split
+  · exact h
+  split
+  · exact h
+  simp only []
+  apply completion_active
+  repeat' split
+  all_goals simp_all [performCheck, St.addPair]
+
+theorem handleResponse_active (s : St) (src : Nat) (m : Stun) (h : s.active.isSome = true) :
+    (handleResponse s src m).1.active.isSome = true := by
+  unfold handleResponse
+  repeat' split
+  all_goals first | exact h | (apply completion_active; exact h) | simp_all
+
+theorem react_active (s : St) (d : Datagram) (h : s.active.isSome = true) : (react s d).1.active.isSome = true := by
+  obtain ⟨src, kind⟩ := d
+  cases kind with
+  | nonStun p => simp only [react]; split <;> exact h
+  | stun m =>
+    simp only [react]
+    split
+    · exact h
+    split
+    · exact h
+    cases decodeWalk (m.cls == .response || m.cls == .error) false m.attrs with
+    | badMi => exact h
+    | badFp => exact h
+    | truncAttr => exact h
+    | silent => exact h
+    | ok =>
+      simp only []
+      split
+      · exact h
+      cases m.cls with
+      | request => exact handleRequest_active _ _ _ h
+      | indication => exact h
+      | response => exact handleResponse_active _ _ _ h
+      | error => exact handleResponse_active _ _ _ h
+
+/-- **Connected is stable:** no operation whatsoever makes a connected component unconnected again. -/
+theorem step_active (s : St) (op : Op) (h : s.active.isSome = true) : (step s op).1.active.isSome = true := by
+  cases op with
+  | dgram d => exact react_active s d h
+  | tick => simp only [step, tick]; split; rw [checkCandidates_active]; exact h; exact h
+  | connect => simp [step, connect, h]
+  | addRemote a p => simp only [step, addRemote]; split <;> simp_all [St.addPair]
+  | txTimeout t => simp only [step, txFinished]; split <;> simp_all
+  | retransmit t => simp only [step, retransmit, txFinished]; repeat' split; all_goals simp_all
+  | sendApp p => simp only [step, sendApp]; repeat' split; all_goals simp_all
+  | setRemoteCreds => exact h
+  | setRemoteUser => exact h
+  | setRemotePassword => exact h
+
+theorem run_active (ops : List Op) (s : St) (h : s.active.isSome = true) : (run s ops).1.active.isSome = true := by
+  induction ops generalizing s with
+  | nil => exact h
+  | cons op ops ih => exact ih _ (step_active s op h)
+
+/-! ### attributes behind MESSAGE-INTEGRITY -/
+theorem decodeWalk_after_ok (k : Bool) (post : List Attr) (h : ∀ a ∈ post, a.harmless = true) :
+    decodeWalk k true post = .ok := by
+  induction post with
+  | nil => rfl
+  | cons a r ih =>
+    have ha := h a (by simp)
+    have hr : ∀ b ∈ r, b.harmless = true := fun b hb => h b (by simp [hb])
+    cases a with
+    | mi st => simp [decodeWalk, ih hr]
+    | fingerprint g => cases g <;> simp_all [decodeWalk, Attr.harmless]
+    | other => simp [decodeWalk, ih hr]
+    | overrun => simp [Attr.harmless] at ha
+    | useCandidate => simp [decodeWalk, ih hr]
+    | priority n => simp [decodeWalk, ih hr]
+
+theorem prescan_trailer (pre post : List Attr) (st : MiSt) :
+    prescan (pre ++ .mi st :: post) = prescan (pre ++ [.mi st]) := by
+  induction pre with
+  | nil => rfl
+  | cons a r ih => cases a <;> simp [prescan, ih]
+
+theorem decodeWalk_trailer (k : Bool) (pre post : List Attr) (st : MiSt) (h : ∀ a ∈ post, a.harmless = true) (ai : Bool) :
+    decodeWalk k ai (pre ++ .mi st :: post) = decodeWalk k ai (pre ++ [.mi st]) := by
+  induction pre generalizing ai with
+  | nil =>
+    cases ai with
+    | true => simp [decodeWalk, decodeWalk_after_ok k post h]
+    | false =>
+      simp only [List.nil_append, decodeWalk, Bool.false_eq_true, if_false]
+      cases miCheck k st <;> simp [decodeWalk_after_ok k post h]
+  | cons a r ih =>
+    cases a with
+    | mi st' =>
+      cases ai with
+      | true => simp [decodeWalk, ih]
+      | false =>
+        simp only [List.cons_append, decodeWalk, Bool.false_eq_true, if_false]
+        cases miCheck k st' <;> simp [ih]
+    | fingerprint g => simp [decodeWalk]
+    | other => simp [decodeWalk, ih]
+    | overrun => simp [decodeWalk]
+    | useCandidate => simp [decodeWalk, ih]
+    | priority n => simp [decodeWalk, ih]
+
+theorem parsedUc_trailer (pre post : List Attr) (st : MiSt) :
+    parsedUc (pre ++ .mi st :: post) = parsedUc (pre ++ [.mi st]) := by
+  induction pre with
+  | nil => rfl
+  | cons a r ih => cases a <;> simp [parsedUc, ih]
+
+theorem parsedPrio_trailer (pre post : List Attr) (st : MiSt) (cur : Nat) :
+    parsedPrio cur (pre ++ .mi st :: post) = parsedPrio cur (pre ++ [.mi st]) := by
+  induction pre generalizing cur with
+  | nil => rfl
+  | cons a r ih => cases a <;> simp [parsedPrio, ih]
+
+/-- `handleRequest` looks at four fields of the decoded message only -/
+theorem handleRequest_congr (s : St) (src : Nat) (m1 m2 : Stun) (h1 : m1.roleAttr = m2.roleAttr)
+    (h2 : m1.useCandidate = m2.useCandidate) (h3 : m1.txid = m2.txid) (h4 : m1.priority = m2.priority) :
+    handleRequest s src m1 = handleRequest s src m2 := by
+  obtain ⟨c1, me1, t1, a1, u1, r1, p1, n1⟩ := m1
+  obtain ⟨c2, me2, t2, a2, u2, r2, p2, n2⟩ := m2
+  simp only at h1 h2 h3 h4
+  subst h1 h2 h3 h4
+  rfl
+
+/-! ### application datagrams -/
+
+
+/-- a connected sender writes every payload to the selected pair's remote address, untouched, and its state does not change -/
+theorem run_sendApp (a : St) (dst : Nat) (h : a.active = some dst) (ps : List (List UInt8)) :
+    run a (ps.map .sendApp) = (a, ps.map (Out.appSent dst)) := by
+  induction ps with
+  | nil => rfl
+  | cons p r ih => simp [run, step, sendApp, h, ih]
+
+/-- what arrives at `dst` from those writes: the payloads as non-STUN datagrams from the sender's address, in order -/
+theorem route_appSent (a : St) (from_ dst : Nat) (ps : List (List UInt8)) :
+    route a from_ dst (ps.map (Out.appSent dst)) = ps.map (fun p => ({ src := from_, kind := .nonStun p } : Datagram)) := by
+  induction ps with
+  | nil => rfl
+  | cons p r ih => simp [route, wire, ih]
+
+/-- a receiver hands every non-STUN datagram up unchanged and in order; its connectivity view does not change -/
+theorem run_nonStun (b : St) (src : Nat) (ps : List (List UInt8)) :
+    (run b (ps.map fun p => .dgram { src := src, kind := .nonStun p })).2 = ps.map Out.appData ∧
+    connView (run b (ps.map fun p => .dgram { src := src, kind := .nonStun p })).1 = connView b := by
+  induction ps generalizing b with
+  | nil => exact ⟨rfl, rfl⟩
+  | cons p r ih =>
+    have hs : connView (react b { src := src, kind := .nonStun p }).1 = connView b := by
+      simp only [react]; split <;> rfl
+    have ho : (react b { src := src, kind := .nonStun p }).2 = [Out.appData p] := by
+      simp only [react]
+    have h2 := ih (react b { src := src, kind := .nonStun p }).1
+    simp only [List.map_cons, run, step]
+    exact ⟨by rw [ho, h2.1]; rfl, by rw [h2.2, hs]⟩
+
+/-! the 1024 combinations of {role assignment, who starts, whether the first check arrives before the other side starts, an extra
+unreachable candidate on either side, its position, loss of each of the four first transmissions}, in four kernel-evaluated parts -/
+theorem lossy_ff : ∀ g da db df l1 l2 l3 l4 : Bool,
+    bothConnected (Net.periods 3 (lossyStart false false g da db df 1, ⟨l1, l2, l3, l4⟩)).1 = true := by decide +kernel
+theorem lossy_ft : ∀ g da db df l1 l2 l3 l4 : Bool,
+    bothConnected (Net.periods 3 (lossyStart false true g da db df 1, ⟨l1, l2, l3, l4⟩)).1 = true := by decide +kernel
+theorem lossy_tf : ∀ g da db df l1 l2 l3 l4 : Bool,
+    bothConnected (Net.periods 3 (lossyStart true false g da db df 1, ⟨l1, l2, l3, l4⟩)).1 = true := by decide +kernel
+theorem lossy_tt : ∀ g da db df l1 l2 l3 l4 : Bool,
+    bothConnected (Net.periods 3 (lossyStart true true g da db df 1, ⟨l1, l2, l3, l4⟩)).1 = true := by decide +kernel
+
 end Qx.C15
